@@ -214,15 +214,21 @@ func sortedNames(m map[string]string) []string {
 }
 
 // runV1 loads the scripts with the real loader and runs the entry script on the point.
-func runV1(rc runCase) map[string]any {
-	srcs := map[string]string{}
+func caseHeader(rc runCase) map[string]any {
 	in := []any{}
 	for _, s := range rc.Scripts {
-		srcs[s.Name] = s.Src
 		in = append(in, map[string]any{"name": hx(s.Name), "src": hx(s.Src)})
 	}
-	res := map[string]any{"k": "run", "scripts": in, "entry": hx(rc.Entry), "point": rc.Point.json(),
+	return map[string]any{"k": "run", "scripts": in, "entry": hx(rc.Entry), "point": rc.Point.json(),
 		"sigk": rc.SigK, "hassig": rc.HasSig}
+}
+
+func runV1Direct(rc runCase) map[string]any {
+	srcs := map[string]string{}
+	for _, s := range rc.Scripts {
+		srcs[s.Name] = s.Src
+	}
+	res := caseHeader(rc)
 	call, check := fnTables()
 	oks, errs := engine.ParseScript(srcs, call, check)
 	loadErrs := map[string]any{}
